@@ -287,9 +287,10 @@ theorem addBlocks_reaches {U} (hU : WFU U) {m : Mgr} (h : Inv U m) (b : Nat) (bs
     · rw [he] at hok; cases hok
 
 /-- **the interrupted batch, resubmitted to the reopened manager, ends on the same best chain as
-it did in the uninterrupted run** — outside the two known classes, which are exactly the two
-hypotheses: the resubmission returns no error (the reorg it triggers does not fail), and its last
-block is sufficiently heavier than the reopened tip (no near tie). -/
+it did in the uninterrupted run** — under two hypotheses: the resubmission returns no error (the
+reorg it triggers does not fail; otherwise the node returns to the reopened tip and needs the
+earlier batches offered again), and its last block is sufficiently heavier than the reopened tip
+(no near tie, the known class). -/
 theorem catchup_interrupted_batch {U} (hU : WFU U) {m m' : Mgr} (h : Inv U m) (h' : Inv U m')
     (b : Nat) (bs : List Nat)
     (hok : (addBlocks U m (b :: bs)).2 = none) (hh : heavier U (bs.getLastD b) m.tip = true)
